@@ -289,12 +289,17 @@ fn check_case_limited(l: &mut Local<'_>, cfg: gen::ModeCfg, spec: &MapSpec, menu
 
 fn main() {
     let ctx = Ctx::from_env("C09");
-    ctx.rule("case = (mode configuration, grammar map incl. degenerate shapes: empty, single object, all spinners, fully stacked, 1 ms gaps, 7 s gaps, three or four simultaneous objects stacked and apart); per case: settings menu (mods incl. RX/AP/TD/SO/FL/Classic x lazer flag, clock rates {0.5,0.75,1.5,2}, AR/CS/OD/HP all in {0,5,10,11} x with_mods) x every passed_objects prefix x every score state consistent with the prefix counts (all compositions into the mode's hit results; combo in {0,max}; slider end / tick hits in {0,max}, under lazer Classic large ticks also at max + slider heads); oracle on the Debug dumps: no NaN/inf anywhere in difficulty attributes, strains, performance attributes; every float field except ar/hp >= 0; accuracy() in [0,1]; generated state with zero hits => pp == 0; non-trivial = stars > 0");
+    ctx.rule("case = (mode configuration, grammar map incl. degenerate shapes: empty, single object, all spinners, fully stacked, 1 ms gaps, 7 s gaps, three or four simultaneous objects stacked and apart); per case: settings menu (mods incl. RX/AP/TD/SO/FL/Classic x lazer flag, AP / RX / TD also on the periodic longer maps, clock rates {0.5,0.75,1.5,2}, AR/CS/OD/HP all in {0,5,10,11} x with_mods) x every passed_objects prefix x every score state consistent with the prefix counts (all compositions into the mode's hit results; combo in {0,max}; slider end / tick hits in {0,max}, under lazer Classic large ticks also at max + slider heads); oracle on the Debug dumps: no NaN/inf anywhere in difficulty attributes, strains, performance attributes; every float field except ar/hp >= 0; accuracy() in [0,1]; generated state with zero hits => pp == 0; non-trivial = stars > 0");
 
     let rich = !ctx.quick();
     // periodic longer maps (12 objects), a reduced settings menu, every prefix, every consistent score state of up to 6 judgements
     for mu in vh::uni::motif_universes(&MODE_CFGS, 2, ctx.pick(6, 8), false).into_iter().chain(vh::uni::rhythm_universes(&MODE_CFGS, 3, ctx.pick(3, 4))) {
-        let menu: Vec<Setting> = vec![Setting::nm(), Setting::bits(settings::RX | settings::FL), Setting { lazer: Some(false), ..Setting::bits(settings::HR | settings::DT) }, Setting { rate: Some(0.5), ..Setting::bits(settings::EZ | settings::FL) }];
+        let mut menu: Vec<Setting> = vec![Setting::nm(), Setting::bits(settings::RX | settings::FL), Setting { lazer: Some(false), ..Setting::bits(settings::HR | settings::DT) }, Setting { rate: Some(0.5), ..Setting::bits(settings::EZ | settings::FL) }];
+        // (skills need a few objects of history before they report anything: the mods that set a rating to zero by decree —
+        // Autopilot, Relax, alone and with Touch Device — meet non-zero companions of that rating only on these longer maps)
+        if mu.cfg.dst == 0 {
+            menu.extend([Setting::bits(settings::AP), Setting::bits(settings::AP | settings::TD | settings::FL), Setting::bits(settings::RX | settings::TD)]);
+        }
         ctx.universe(&mu.name, mu.total, |idx, l| {
             let spec = mu.spec(idx);
             check_case_limited(l, mu.cfg, &spec, &menu);
